@@ -482,3 +482,67 @@ func (k *core) checkSkipFlag(rule string) []flagOrigin {
 	}
 	return origins
 }
+
+// checkBlockingForwarders: every type of the repository that declares its own
+// BlockingReportNewValue(ctx, reflect.Value) error (a WatchArgs wrapper; the
+// Dials implementation itself is checked by blocking-returns-error) forwards
+// to the wrapped WatchArgs' BlockingReportNewValue and returns that call's
+// result on every path that does not return an earlier, tested error. A wrapper
+// that forwards to the non-blocking report returns before the value is
+// installed and swallows the stacking / verification error.
+func (k *core) checkBlockingForwarders(rule string) {
+	c := k.c
+	w := c.W
+	n := 0
+	for _, f := range w.Funcs {
+		if f.Name() != "BlockingReportNewValue" || f.Signature.Recv() == nil || f.Parent() != nil || len(f.Blocks) == 0 {
+			continue
+		}
+		if f.Pkg != nil && f.Pkg.Pkg.Path() == modPath {
+			continue // the Dials implementation itself
+		}
+		n++
+		c.analysed(relName(f))
+		var fwd *ssa.Call
+		other := ""
+		for _, i := range allInstrs(f) {
+			ci, ok := i.(*ssa.Call)
+			if !ok {
+				continue
+			}
+			switch calleeFullName(ci) {
+			case "(" + modPath + ".WatchArgs).BlockingReportNewValue":
+				fwd = ci
+			case "(" + modPath + ".WatchArgs).ReportNewValue":
+				other = "ReportNewValue"
+			}
+		}
+		if fwd == nil {
+			msg := "the wrapper does not forward to the wrapped arguments' BlockingReportNewValue"
+			if other != "" {
+				msg += " (it calls " + other + ": the report returns before the value is installed, and a stacking or verification error is never returned)"
+			}
+			c.bad(rule, relName(f), f.Pos(), "%s", msg)
+			continue
+		}
+		okRet := true
+		for _, r := range returnsOf(f) {
+			rv := retVals(r)
+			if len(rv) != 1 {
+				okRet = false
+				continue
+			}
+			if rv[0] == ssa.Value(fwd) {
+				continue
+			}
+			// an earlier error: must be known non-nil here
+			if isNilConst(rv[0]) {
+				okRet = false
+			}
+		}
+		c.check(okRet, rule, relName(f), f.Pos(), "forwards to the wrapped BlockingReportNewValue and returns its result (other returns carry an earlier error)", "a return of the wrapper yields nil or drops the result of the wrapped BlockingReportNewValue")
+	}
+	if n == 0 {
+		c.bad(rule, "wrappers", token.NoPos, "no WatchArgs wrapper declaring BlockingReportNewValue found (sourcewrap.wrappedWatchArgs expected)")
+	}
+}
